@@ -20,7 +20,7 @@ package security
 
 //@ func (*SessionEntry).IsExpired
 //@   props C06 C17
-//@   requires unlocked: !held(&s.mu)
+//@   requires unlocked: [typeinv:session_cache.go] !held(&s.mu)
 //@   assigns lock(&s.mu), clockNow
 //@   ensures verdict: result == expiredAt(s, clockNow)
 //@   ensures unlocked_after: !held(&s.mu)
@@ -28,7 +28,7 @@ package security
 
 //@ func (*SessionEntry).RenewLease
 //@   props C06 C17
-//@   requires unlocked: !held(&s.mu)
+//@   requires unlocked: [typeinv:session_cache.go] !held(&s.mu)
 //@   assigns lock(&s.mu), clockNow, s.expiration
 //@   ensures forward_only: s.lease == 0 ==> s.expiration == old(s.expiration)
 //@   ensures renewed: s.lease != 0 ==> instant(s.expiration.wall, s.expiration.ext) == clockNow + s.lease
@@ -36,7 +36,7 @@ package security
 
 //@ func (*SessionEntry).Expiration
 //@   props C17
-//@   requires unlocked: !held(&s.mu)
+//@   requires unlocked: [typeinv:session_cache.go] !held(&s.mu)
 //@   assigns lock(&s.mu)
 //@   ensures value: result == s.expiration
 //@   ensures unlocked_after: !held(&s.mu)
@@ -54,7 +54,8 @@ package security
 
 //@ func (*SessionCache).Store
 //@   props C06 C07 C17
-//@   requires wf: cacheWF(c) && entry != nil
+//@   requires wf: [typeinv:session_cache.go] cacheWF(c)
+//@   requires entry_given: entry != nil
 //@   assigns lock(&c.mu), mapof(c.sessions)
 //@   ensures stored: has(c.sessions, entry.id) && c.sessions[entry.id] == entry
 //@   ensures others_kept: forall k :: k != entry.id ==> has(c.sessions, k) == old(has(c.sessions, k)) && c.sessions[k] == old(c.sessions[k])
@@ -62,7 +63,7 @@ package security
 
 //@ func (*SessionCache).Lookup (c, id) (result, ok)
 //@   props C06 C17
-//@   requires wf: cacheWF(c) && (has(c.sessions, id) ==> c.sessions[id] != nil && !held(&c.sessions[id].mu))
+//@   requires wf: [typeinv:session_cache.go] cacheWF(c) && (has(c.sessions, id) ==> c.sessions[id] != nil && !held(&c.sessions[id].mu))
 //@   assigns lock(&c.mu), clockNow, when(has(c.sessions, id), lock(&c.sessions[id].mu))
 //@   ensures hit: ok ==> has(c.sessions, id) && result == c.sessions[id] && !expiredAt(result, clockNow)
 //@   ensures miss: !ok ==> result == nil && (!has(c.sessions, id) || expiredAt(c.sessions[id], clockNow))
@@ -70,7 +71,7 @@ package security
 
 //@ func (*SessionCache).LookupNonExpired (c, id) (result, ok)
 //@   props C06 C17
-//@   requires wf: cacheWF(c) && (has(c.sessions, id) ==> c.sessions[id] != nil && !held(&c.sessions[id].mu))
+//@   requires wf: [typeinv:session_cache.go] cacheWF(c) && (has(c.sessions, id) ==> c.sessions[id] != nil && !held(&c.sessions[id].mu))
 //@   assigns lock(&c.mu), clockNow, mapof(c.sessions), when(has(c.sessions, id), lock(&c.sessions[id].mu))
 //@   ensures hit: [C06] ok ==> old(has(c.sessions, id)) && result == old(c.sessions[id]) && !expiredAt(result, clockNow) && has(c.sessions, id)
 //@   ensures miss: [C06] !ok ==> result == nil && (!old(has(c.sessions, id)) || expiredAt(old(c.sessions[id]), clockNow))
@@ -80,7 +81,7 @@ package security
 
 //@ func (*SessionCache).MapCommand
 //@   props C07 C17
-//@   requires wf: cacheWF(c)
+//@   requires wf: [typeinv:session_cache.go] cacheWF(c)
 //@   assigns lock(&c.mu), mapof(c.commandMap)
 //@   ensures mapped: has(c.commandMap, cmdKey(tag, addr, command)) && c.commandMap[cmdKey(tag, addr, command)] == sessionID
 //@   ensures others_kept: forall k :: k != cmdKey(tag, addr, command) ==> has(c.commandMap, k) == old(has(c.commandMap, k)) && c.commandMap[k] == old(c.commandMap[k])
@@ -88,7 +89,7 @@ package security
 
 //@ func (*SessionCache).LookupByCommand (c, tag, addr, command) (result, ok)
 //@   props C07 C06 C17
-//@   requires wf: cacheWF(c) && forall k :: has(c.sessions, k) ==> c.sessions[k] != nil && !held(&c.sessions[k].mu)
+//@   requires wf: [typeinv:session_cache.go] cacheWF(c) && forall k :: has(c.sessions, k) ==> c.sessions[k] != nil && !held(&c.sessions[k].mu)
 //@   assigns lock(&c.mu), clockNow, when(has(c.commandMap, cmdKey(tag, addr, command)) && has(c.sessions, c.commandMap[cmdKey(tag, addr, command)]), lock(&c.sessions[c.commandMap[cmdKey(tag, addr, command)]].mu))
 //@   let key = cmdKey(tag, addr, command)
 //@   ensures hit: [C07] ok ==> has(c.commandMap, key) && has(c.sessions, c.commandMap[key]) && result == c.sessions[c.commandMap[key]] && !expiredAt(result, clockNow)
@@ -97,7 +98,7 @@ package security
 
 //@ func (*SessionCache).Invalidate (c, id) (result)
 //@   props C06 C07 C17
-//@   requires wf: cacheWF(c)
+//@   requires wf: [typeinv:session_cache.go] cacheWF(c)
 //@   assigns lock(&c.mu), mapof(c.sessions), mapof(c.commandMap)
 //@   loop 1 invariant locked: held(&c.mu) && c.sessions == old(c.sessions) && c.commandMap == old(c.commandMap) && !has(c.sessions, id)
 //@   loop 1 invariant settled: forall k :: visited(1, k) && has(c.commandMap, k) ==> c.commandMap[k] != id
@@ -112,7 +113,7 @@ package security
 
 //@ func (*SessionCache).InvalidateExpired (c) (result)
 //@   props C06 C07 C17
-//@   requires wf: cacheWF(c) && forall k :: has(c.sessions, k) ==> c.sessions[k] != nil && !held(&c.sessions[k].mu)
+//@   requires wf: [typeinv:session_cache.go] cacheWF(c) && forall k :: has(c.sessions, k) ==> c.sessions[k] != nil && !held(&c.sessions[k].mu)
 //@   assigns lock(&c.mu), clockNow, mapof(c.sessions), mapof(c.commandMap), anylock()
 //@   loop 1 invariant locked: held(&c.mu) && c.sessions == old(c.sessions) && c.commandMap == old(c.commandMap) && count >= 0
 //@   loop 1 invariant only_removed: forall k :: has(c.sessions, k) ==> old(has(c.sessions, k)) && c.sessions[k] == old(c.sessions[k])
@@ -126,14 +127,14 @@ package security
 
 //@ func (*SessionCache).Clear
 //@   props C06 C07 C17
-//@   requires wf: cacheWF(c)
+//@   requires wf: [typeinv:session_cache.go] cacheWF(c)
 //@   assigns lock(&c.mu), c.sessions, c.commandMap
 //@   ensures emptied: len(c.sessions) == 0 && len(c.commandMap) == 0 && fresh(c.sessions) && fresh(c.commandMap)
 //@   ensures wf_kept: cacheWF(c)
 
 //@ func (*SessionCache).DebugDump
 //@   props C17
-//@   requires wf: cacheWF(c) && forall k :: has(c.sessions, k) ==> c.sessions[k] != nil && !held(&c.sessions[k].mu)
+//@   requires wf: [typeinv:session_cache.go] cacheWF(c) && forall k :: has(c.sessions, k) ==> c.sessions[k] != nil && !held(&c.sessions[k].mu)
 //@   assigns lock(&c.mu), anylock()
 //@   ensures wf_kept: cacheWF(c)
 //@   loop 1 invariant read_locked: rcount(&c.mu) == 1 && !held(&c.mu)
@@ -142,29 +143,29 @@ package security
 
 //@ func (*SessionCache).Size
 //@   props C17
-//@   requires wf: cacheWF(c)
+//@   requires wf: [typeinv:session_cache.go] cacheWF(c)
 //@   assigns lock(&c.mu)
 //@   ensures size: result == len(c.sessions)
 //@   ensures wf_kept: cacheWF(c)
 
 //@ func (*SessionEntry).LastPeerVersion
 //@   props C17
-//@   requires unlocked: !held(&s.mu)
+//@   requires unlocked: [typeinv:session_cache.go] !held(&s.mu)
 //@   assigns lock(&s.mu)
 //@   ensures unlocked_after: !held(&s.mu)
 //@ func (*SessionEntry).SetLastPeerVersion
 //@   props C17
-//@   requires unlocked: !held(&s.mu)
+//@   requires unlocked: [typeinv:session_cache.go] !held(&s.mu)
 //@   assigns lock(&s.mu), s.lastPeerVersion
 //@   ensures set: s.lastPeerVersion == version && !held(&s.mu)
 //@ func (*SessionEntry).IsInherited
 //@   props C17
-//@   requires unlocked: !held(&s.mu)
+//@   requires unlocked: [typeinv:session_cache.go] !held(&s.mu)
 //@   assigns lock(&s.mu)
 //@   ensures unlocked_after: !held(&s.mu)
 //@ func (*SessionEntry).SetInherited
 //@   props C17
-//@   requires unlocked: !held(&s.mu)
+//@   requires unlocked: [typeinv:session_cache.go] !held(&s.mu)
 //@   assigns lock(&s.mu), s.inherited
 //@   ensures set: s.inherited == v && !held(&s.mu)
 
@@ -205,7 +206,7 @@ package security
 
 //@ func (*Authenticator).negotiateSecurity (a, negotiation) (err)
 //@   props C10 C03
-//@   requires cfgs: negotiation.ServerConfig != nil && negotiation.ClientConfig != nil && negotiation.ServerConfig != negotiation.ClientConfig
+//@   requires cfgs: negotiation.ServerConfig != nil && negotiation.ClientConfig != nil
 //@   requires fresh_negotiation: negotiation.NegotiatedCrypto == ""
 //@   let sc = negotiation.ServerConfig
 //@   let cc = negotiation.ClientConfig
@@ -234,3 +235,212 @@ package security
 //@   ensures enc_by_table: [C10 C03] err == nil ==> negotiation.Encryption == wanted(sc.Encryption, cc.Encryption, haveCrypto)
 //@   ensures required_honoured: [C03] err == nil && (sc.Authentication == "REQUIRED" || cc.Authentication == "REQUIRED") ==> negotiation.Authentication && haveAuth
 //@   ensures required_enc_honoured: [C03] err == nil && (sc.Encryption == "REQUIRED" || cc.Encryption == "REQUIRED") ==> negotiation.Encryption && haveCrypto
+
+// ---- key installation after the handshake (C03, C10, C04) ---------------------------------------
+//@ ufunc ecdhOf(int, int) int
+//@ assignset keyInstall(S) = S.gcm, S.encryptKey, S.encryptIV, S.encryptCounter, S.decryptCounter, S.finishedSendAAD, S.finishedRecvAAD, S.finalSendDigest, S.finalRecvDigest, S.encrypted, randCount
+
+//@ ufunc ecdhUsable(int, int, bool, int) bool
+//@ func (*Authenticator).performECDHKeyExchange (a, clientKeyB64, serverKeyB64, isClient) (result, err)
+//@   trusted
+//@   pure
+//@   ensures err == nil ==> len(result) > 0
+//@   ensures (err == nil) == ecdhUsable(clientKeyB64, serverKeyB64, isClient, a.ecdhPrivKey)
+
+//@ func (*Authenticator).deriveAESKey (a, sharedSecret) (result, err)
+//@   trusted
+//@   pure
+//@   ensures err == nil ==> len(result) == 32 && fresh(result)
+
+//@ func (*Authenticator).setupStreamEncryption (a, negotiation) (err)
+//@   props C03 C10 C04 C06
+//@   requires fresh_stream: a.stream != nil && a.stream.gcm == nil
+//@   assigns negotiation.Encryption, negotiation.sharedSecret, @keyInstall(a.stream)
+//@   ensures reported_is_real: [C03] err == nil ==> negotiation.Encryption == sealingOn(a.stream)
+//@   ensures decided_means_sealed: [C03 C10] err == nil && old(negotiation.Encryption) ==> sealingOn(a.stream)
+//@   ensures key_kept_for_session: [C06] err == nil && sealingOn(a.stream) ==> len(negotiation.sharedSecret) == 32
+//@   let ck = ite(negotiation.ClientConfig != nil, negotiation.ClientConfig.ECDHPublicKey, "")
+//@   let sk = ite(negotiation.ServerConfig != nil, negotiation.ServerConfig.ECDHPublicKey, "")
+//@   ensures keyed_only_by_wire_facts: [C10] err == nil && !(len(old(negotiation.sharedSecret)) > 0 && negotiation.SessionResumed) && sealingOn(a.stream) ==> ck != "" && sk != "" && negotiation.NegotiatedCrypto == "AES"
+//@   ensures keyed_whenever_both_keys: [C10] err == nil && ck != "" && sk != "" && negotiation.NegotiatedCrypto == "AES" && ecdhUsable(ck, sk, negotiation.IsClient, a.ecdhPrivKey) ==> sealingOn(a.stream)
+//@   ensures digests_frozen: [C04] err == nil ==> a.stream.finalSendDigest != nil && a.stream.finalRecvDigest != nil
+//@   ensures never_half_keyed: [C03] err != nil || sealingOn(a.stream) || a.stream.gcm == nil
+
+// ---- which authentication ran (C03) -------------------------------------------------------------
+// authOKCount / authOKMethod are ghosts defined by performAuthentication's assumed contract: the number of method
+// handshakes that completed successfully on this connection and the last such method.
+//@ ghost var authOKCount int
+//@ ghost var authOKMethod string
+
+//@ func (*Authenticator).performAuthentication (a, ctx, method, negotiation) (err)
+//@   trusted
+//@   preserves security.SecurityConfig security.Authenticator elems$security.AuthMethod
+//@   ensures counted: authOKCount == old(authOKCount) + ite(err == nil, 1, 0)
+//@   ensures which: err == nil ==> authOKMethod == method
+//@   ensures flags_kept: negotiation.Authentication == old(negotiation.Authentication) && negotiation.Encryption == old(negotiation.Encryption) && negotiation.NegotiatedCrypto == old(negotiation.NegotiatedCrypto) && negotiation.ClientConfig == old(negotiation.ClientConfig) && negotiation.ServerConfig == old(negotiation.ServerConfig) && negotiation.IsClient == old(negotiation.IsClient) && negotiation.SessionResumed == old(negotiation.SessionResumed)
+//@   ensures no_key_installed: a.stream.gcm == old(a.stream.gcm)
+
+//@ func (*Authenticator).exchangeKey (a, ctx, negotiation) (err)
+//@   props C13 C03
+//@   requires strm: a.stream != nil
+//@   ensures no_key_installed: a.stream.gcm == old(a.stream.gcm)
+//@   preserves security.SecurityConfig security.Authenticator security.SecurityNegotiation elems$security.AuthMethod G$authOK
+
+//@ func (*Authenticator).handleClientAuthentication (a, ctx, negotiation) (err)
+//@   props C03
+//@   requires cfg: a.config != nil && negotiation.ServerConfig != nil && negotiation.ClientConfig != nil && a.stream != nil
+//@   preserves security.SecurityConfig security.Authenticator
+//@   loop 5 invariant none_yet: authOKCount == old(authOKCount) && a.stream != nil
+//@   loop 5 invariant kept: negotiation.Encryption == old(negotiation.Encryption) && negotiation.NegotiatedCrypto == old(negotiation.NegotiatedCrypto) && negotiation.ClientConfig == old(negotiation.ClientConfig) && negotiation.ServerConfig == old(negotiation.ServerConfig) && negotiation.IsClient == old(negotiation.IsClient) && negotiation.SessionResumed == old(negotiation.SessionResumed) && a.stream.gcm == old(a.stream.gcm)
+//@   assert before call performAuthentication #1 offered_only: (serverResponse &^ availableBitmask) == 0
+//@   ensures negotiation_kept: negotiation.Encryption == old(negotiation.Encryption) && negotiation.NegotiatedCrypto == old(negotiation.NegotiatedCrypto) && negotiation.ClientConfig == old(negotiation.ClientConfig) && negotiation.ServerConfig == old(negotiation.ServerConfig) && negotiation.IsClient == old(negotiation.IsClient) && negotiation.SessionResumed == old(negotiation.SessionResumed)
+//@   ensures no_key_installed: a.stream.gcm == old(a.stream.gcm)
+//@   let answer = old(negotiation.ServerConfig.Authentication)
+//@   ensures declined: [C03] err == nil && answer != "YES" ==> a.config.Authentication != "REQUIRED" && !negotiation.Authentication && authOKCount == old(authOKCount)
+//@   ensures ran: [C03] err == nil && answer == "YES" ==> negotiation.Authentication && authOKCount == old(authOKCount) + 1 && authOKMethod == negotiation.NegotiatedAuth
+//@   ensures required_means_ran: [C03] err == nil && a.config.Authentication == "REQUIRED" ==> negotiation.Authentication && authOKCount == old(authOKCount) + 1
+
+//@ func (*Authenticator).handleServerAuthentication (a, ctx, negotiation) (err)
+//@   props C03
+//@   requires cfg: a.config != nil && a.stream != nil
+//@   preserves security.SecurityConfig security.Authenticator elems$security.AuthMethod
+//@   loop 1 invariant none_yet: authOKCount == old(authOKCount) && negotiation.Authentication && a.stream != nil
+//@   loop 1 invariant kept: negotiation.Encryption == old(negotiation.Encryption) && negotiation.NegotiatedCrypto == old(negotiation.NegotiatedCrypto) && negotiation.ClientConfig == old(negotiation.ClientConfig) && negotiation.ServerConfig == old(negotiation.ServerConfig) && negotiation.IsClient == old(negotiation.IsClient) && negotiation.SessionResumed == old(negotiation.SessionResumed) && a.stream.gcm == old(a.stream.gcm)
+//@   assert before call performAuthentication #1 own_list_only: inAuthList(arg2, a.config.AuthMethods)
+//@   ensures negotiation_kept: negotiation.Encryption == old(negotiation.Encryption) && negotiation.NegotiatedCrypto == old(negotiation.NegotiatedCrypto) && negotiation.ClientConfig == old(negotiation.ClientConfig) && negotiation.ServerConfig == old(negotiation.ServerConfig) && negotiation.IsClient == old(negotiation.IsClient) && negotiation.SessionResumed == old(negotiation.SessionResumed)
+//@   ensures no_key_installed: a.stream.gcm == old(a.stream.gcm)
+//@   ensures skipped: [C03] err == nil && !old(negotiation.Authentication) ==> authOKCount == old(authOKCount) && !negotiation.Authentication
+//@   ensures ran: [C03] err == nil && old(negotiation.Authentication) ==> negotiation.Authentication && authOKCount == old(authOKCount) + 1 && authOKMethod == negotiation.NegotiatedAuth && inAuthList(negotiation.NegotiatedAuth, a.config.AuthMethods)
+
+// token discovery reads files and environment; it changes nothing the handshake state depends on (assumed)
+//@ func (*Authenticator).hasCompatibleToken (a, clientConfig, serverConfig) (result)
+//@   trusted
+//@   pure
+//@ func (*Authenticator).tokenSearchSummary (a, clientConfig, serverConfig) (result)
+//@   trusted
+//@   pure
+//@ func createClientAuthBitmask (methods) (result)
+//@   props C03
+//@   assigns nothing
+
+// ---- client-side session caching (C07, C06) ------------------------------------------------------
+//@ pred aesName(m) = m == "AES" || m == "AESGCM"
+//@ func (*Authenticator).storeClientSession (a, negotiation, durationSecs, leaseSecs, cache)
+//@   props C06 C07
+//@   requires given: a.config != nil && cache != nil && negotiation != nil
+//@   let keyed = len(negotiation.sharedSecret) > 0 && aesName(negotiation.NegotiatedCrypto)
+//@   assigns clockNow, when(keyed, lock(&cache.mu)), when(keyed, mapof(cache.sessions)), when(keyed, mapof(cache.commandMap))
+//@   loop 1 invariant stored: has(cache.sessions, negotiation.SessionId) && cache.sessions[negotiation.SessionId].tag == a.config.SecurityTag
+//@   assert before call NewSessionEntry #1 tagged: arg6 == a.config.SecurityTag && arg0 == negotiation.SessionId && arg2 != nil
+//@   assert before call SessionCache).MapCommand #1 same_route: arg1 == a.config.SecurityTag && arg4 == negotiation.SessionId
+//@   ensures cached_under_tag: [C07] keyed ==> has(cache.sessions, negotiation.SessionId) && cache.sessions[negotiation.SessionId].tag == a.config.SecurityTag && cache.sessions[negotiation.SessionId].keyInfo != nil
+
+// ---- server-side resumption (C06) ----------------------------------------------------------------
+//@ func GetSessionCache () (result)
+//@   trusted
+//@   pure
+//@   nonnil
+
+//@ func (*Authenticator).handleSessionResumption (a, ctx, sessionID, clientAd, command) (result, err)
+//@   props C06
+//@   requires given: a.config != nil && a.stream != nil && clientAd != nil && a.stream.gcm == nil
+//@   assert before call setupStreamEncryption #1 session_key: arg1.SessionResumed && ref(arg1.sharedSecret) == ref(entry.keyInfo.Data) && len(arg1.sharedSecret) == len(entry.keyInfo.Data) && aesName(arg1.NegotiatedCrypto)
+//@   assert before call SessionEntry).RenewLease #1 only_keyed_sessions: entry != nil && entry.keyInfo != nil && len(entry.keyInfo.Data) > 0 && aesName(entry.keyInfo.Protocol)
+//@   ensures keyed_or_refused: [C06] err == nil ==> result != nil && sealingOn(a.stream) && len(result.sharedSecret) == 32 && result.SessionResumed && result.Encryption
+//@   ensures refused_without_result: [C06] err != nil ==> result == nil
+
+// ---- client-side resumption (C06, C07) -----------------------------------------------------------
+//@ func (*Authenticator).resumeSession (a, ctx, entry, cache) (result, err)
+//@   props C06 C07
+//@   requires given: a.config != nil && a.stream != nil && entry != nil && cache != nil && a.stream.gcm == nil
+//@   assert before call setupStreamEncryption #1 session_key: arg1.SessionResumed && ref(arg1.sharedSecret) == ref(entry.keyInfo.Data) && len(arg1.sharedSecret) == len(entry.keyInfo.Data)
+//@   ensures dropped_on_failure: [C07] err != nil ==> result == nil && !has(cache.sessions, old(entry.id))
+//@   ensures keyed_when_key_cached: [C06] err == nil && old(entry.keyInfo) != nil && len(old(entry.keyInfo.Data)) > 0 && aesName(old(entry.keyInfo.Protocol)) ==> sealingOn(a.stream) && result.Encryption && result.SessionResumed
+//@   ensures reported_is_real: [C06 C03] err == nil ==> result != nil && (result.Encryption && old(entry.keyInfo) != nil && len(old(entry.keyInfo.Data)) > 0 ==> sealingOn(a.stream))
+
+// ---- handshake entry points (C03, C07, C10) ------------------------------------------------------
+//@ func (*Authenticator).parseServerSecurityAd (a, ad) (result)
+//@   props C10
+//@   assigns nothing
+//@   ensures fresh(result) && result != nil
+
+//@ func (*Authenticator).createClientSecurityAd (a) (result)
+//@   trusted
+//@   pure
+//@   nonnil
+
+//@ func (*Authenticator).ClientHandshake (a, ctx) (result, err)
+//@   props C07 C06 C03
+//@   requires given: a.config != nil && a.stream != nil && a.stream.gcm == nil
+//@   assert before call SessionCache).LookupByCommand #1 same_tag_and_server: arg1 == a.config.SecurityTag && (a.config.PeerName != "" ==> arg2 == a.config.PeerName)
+//@   assert before call Authenticator).resumeSession #2 only_routed_session: arg2 != nil
+
+//@ func (*Authenticator).performFullAuthentication (a, ctx, cache) (result, err)
+//@   props C03 C10
+//@   requires given: a.config != nil && a.stream != nil && a.stream.gcm == nil && cache != nil
+//@   assert after call Authenticator).setupStreamEncryption #1 enc_decided: [C03] callres == nil ==> (a.config.Encryption == "REQUIRED" ==> sealingOn(a.stream)) && negotiation.Encryption == sealingOn(a.stream) && (sealingOn(a.stream) || a.stream.gcm == nil)
+//@   ensures required_auth_ran: [C03] err == nil && a.config.Authentication == "REQUIRED" ==> authOKCount == old(authOKCount) + 1 && result.Authentication
+//@   ensures required_enc_keyed: [C03] err == nil && a.config.Encryption == "REQUIRED" ==> a.stream.gcm != nil
+//@   ensures reported_enc_is_real: [C03] err == nil ==> result != nil && result.Encryption == (a.stream.gcm != nil)
+
+//@ func parseMethodsList (methods) (result)
+//@   props C10
+//@   assigns nothing
+//@   loop 1 invariant own: (result == nil || fresh(result)) && ref(result) >= 0
+//@ func parseCryptoMethodsList (methods) (result)
+//@   props C10
+//@   assigns nothing
+//@   loop 1 invariant own: (result == nil || fresh(result)) && ref(result) >= 0
+//@ func parseIssuerKeysList (keys) (result)
+//@   props C10
+//@   assigns nothing
+//@   loop 1 invariant own: (result == nil || fresh(result)) && ref(result) >= 0
+//@ func splitCommaList (s) (result)
+//@   props C10
+//@   assigns nothing
+//@   loop 1 invariant own: (result == nil || fresh(result)) && ref(result) >= 0
+
+// ---- server side of the full handshake (C03, C06, C10) -------------------------------------------
+// the application's post-auth policy callback is assumed not to touch cedar's own state
+//@ func funcfield:security.SecurityConfig.PostAuthPolicy
+//@   trusted
+//@   pure
+//@ func funcfield:security.Authenticator.ServerConfigForCommand
+//@   trusted
+//@   pure
+//@ func GenerateSessionID
+//@   trusted
+//@   pure
+//@ func GetNextSessionCounter
+//@   trusted
+//@   pure
+
+//@ func (*Authenticator).storeSession (a, negotiation, sessionID, durationSecs, leaseSecs)
+//@   props C06
+//@   requires given: a.config != nil && negotiation != nil && negotiation.ServerConfig != nil
+//@   preserves security.SecurityConfig security.Authenticator stream.Stream security.SecurityNegotiation
+//@   assert before call NewSessionEntry #1 keyed_entry: arg2 != nil && arg0 == sessionID && arg6 == a.config.SecurityTag
+
+//@ func (*Authenticator).createPostAuthAd (a, negotiation) (result)
+//@   props C06 C03
+//@   requires given: a.config != nil && negotiation != nil && negotiation.ServerConfig != nil
+//@   preserves security.SecurityConfig security.Authenticator stream.Stream
+//@   ensures outcome_kept: negotiation.SessionResumed == old(negotiation.SessionResumed) && negotiation.Encryption == old(negotiation.Encryption) && negotiation.Authentication == old(negotiation.Authentication) && negotiation.ServerConfig == old(negotiation.ServerConfig) && negotiation.ClientConfig == old(negotiation.ClientConfig)
+
+//@ func (*Authenticator).createServerSecurityAd (a, negotiation) (result)
+//@   trusted
+//@   pure
+//@   nonnil
+
+//@ func (*Authenticator).sendNegotiationFailureResponse (a, ctx, negotiation, negErr)
+//@   props C10
+//@   requires given: a.stream != nil
+
+//@ func (*Authenticator).ServerHandshakeWithMessage (a, ctx, msg, command) (result, err)
+//@   props C03 C06 C10
+//@   requires given: a.config != nil && a.stream != nil && a.stream.gcm == nil && msg != nil
+//@   assert before call Authenticator).sendNegotiationFailureResponse #1 explicit_denial: [C10] true
+//@   assert after call Authenticator).setupStreamEncryption #1 enc_decided: [C03] callres == nil ==> (negotiation.ServerConfig.Encryption == "REQUIRED" ==> sealingOn(a.stream)) && negotiation.Encryption == sealingOn(a.stream) && (sealingOn(a.stream) || a.stream.gcm == nil)
+//@   assert after call Authenticator).handleServerAuthentication #1 auth_decided: [C03] callres == nil && negotiation.ServerConfig.Authentication == "REQUIRED" ==> negotiation.Authentication && authOKCount == old(authOKCount) + 1
+//@   ensures full_reports_real: [C03] err == nil && !result.SessionResumed ==> result.Encryption == (a.stream.gcm != nil)
+//@   ensures resumed_is_keyed: [C06] err == nil && result.SessionResumed ==> a.stream.gcm != nil && result.Encryption
